@@ -350,7 +350,12 @@ def _add(module: Module, val: ModuleAttr) -> ModuleAttr:
         module.instbundles,
         module.bundles,
     ):
-        ctr.pop(val.name, None)
+        prior = ctr.pop(val.name, None)
+        if prior is not None and prior is not val and prior._parent_module is module:
+            # The displaced attribute is no longer ours, unless we also hold it under another name.
+            others = (v for k, v in module.namespace.items() if k != val.name)
+            if not any(v is prior for v in others):
+                prior._parent_module = None
 
     # Add it to the module namespace, and the type-specific container
     type_ctr[val.name] = val
